@@ -2,11 +2,12 @@
 """Kill matrix over the kept seeded changes: apply each seeded/<id>/patch.diff to a scratch copy of /repo
 (outside /repo and /verif), run the quick check of its own property (and, with --others P1,P2.., further checks;
 with --thorough the thorough tier when quick misses) with VERIF_REPO=<copy>, and update meta.json
-(caught_by, signatures).  usage: tools/recheck_seeded.py [ids...] [--others C01,C02] [--thorough] [--jobs N]"""
+(caught_by, signatures).  usage: tools/recheck_seeded.py [ids...] [--others C01,C02] [--thorough] [--fresh] [--jobs N]"""
 import glob, json, os, re, shutil, subprocess, sys, tempfile, time
 from concurrent.futures import ThreadPoolExecutor
 
 PY = '/venv/bin/python'
+FRESH = False      # --fresh: forget earlier results of other checks (they may predate later fixes / strengthening)
 
 
 def run_check(prop, tier, repo, workers):
@@ -27,7 +28,7 @@ def one(sid, others, thorough, workers):
         p = subprocess.run(['patch', '-p1', '-s', '-i', dst + '/patch.diff'], cwd=d, capture_output=True, text=True)
         if p.returncode:
             return sid, 'PATCH FAILED ' + (p.stdout + p.stderr)[-200:]
-        res = meta.get('checks_quick', {})
+        res = {} if FRESH else meta.get('checks_quick', {})
         for q in [prop] + [o for o in others if o != prop]:
             res[q] = run_check(q, 'quick', d, workers)
         if res[prop]['rc'] != 1 and thorough:
@@ -43,7 +44,11 @@ def one(sid, others, thorough, workers):
 
 
 def main():
+    global FRESH
     args = sys.argv[1:]
+    if '--fresh' in args:
+        FRESH = True
+        args.remove('--fresh')
     others, thorough, jobs = [], False, 4
     ids = []
     i = 0
